@@ -11,7 +11,7 @@ open TdModel.C01
 /-- `pushChan` with the item's validity needed only if the channel is tracked. -/
 theorem minv_pushChan' {O log keys org start m} (h : MInv O log keys org start m) (c : Nat) (it : ChItem)
     (hit : 2 + c ∈ keys → ItemOK log c it) : MInv O log keys org start (m.pushChan c it) := by
-  refine ⟨coh_pushChan h.coh c it, h.p0, h.q0, h.c0, ?_, h.internal, h.startP, h.startC⟩
+  refine ⟨coh_pushChan h.coh c it, h.p0, h.q0, h.c0, ?_, h.internal, h.startP, h.startC, h.parked⟩
   intro q hq
   rw [queues_pushChan] at hq
   obtain ⟨q0, hq0, rfl⟩ := List.mem_map.1 hq
@@ -79,7 +79,7 @@ theorem queues_clearQueue (m : Mgr) (c : Nat) :
 
 theorem minv_clearQueue {O log keys org start m} (h : MInv O log keys org start m) (c : Nat) :
     MInv O log keys org start (m.clearQueue c) := by
-  refine ⟨⟨h.coh.hlog, ?_, h.coh.tr, h.coh.wf, ?_, ?_⟩, h.p0, h.q0, h.c0, ?_, h.internal, h.startP, h.startC⟩
+  refine ⟨⟨h.coh.hlog, ?_, h.coh.tr, h.coh.wf, ?_, ?_⟩, h.p0, h.q0, h.c0, ?_, h.internal, h.startP, h.startC, h.parked⟩
   · intro k hk; rw [getBox_clearQueue]; exact h.coh.box k hk
   · intro k hk b hb; rw [getBox_clearQueue] at hb; exact h.coh.pend k hk b hb
   · intro k hk; rw [getBox_clearQueue]; exact h.coh.nobox k hk
@@ -132,7 +132,7 @@ theorem minv_settle {O log keys org start} (hO : GoodOrders O) (hS : Scn log key
       generalize (m.chans.map (·.id)).foldl (Mgr.drainChan O fuel) m = m1 at h1
       have h2 : MInv O log keys org start { m1 with internal := [] } :=
         ⟨⟨h1.coh.hlog, h1.coh.box, h1.coh.tr, h1.coh.wf, h1.coh.pend, h1.coh.nobox⟩, h1.p0, h1.q0, h1.c0,
-          h1.queues, fun cont hc => by simp at hc, h1.startP, h1.startC⟩
+          h1.queues, fun cont hc => by simp at hc, h1.startP, h1.startC, h1.parked⟩
       exact foldl_inv (MInv O log keys org start) (Mgr.applyCombined O) m1.internal (fun cont => ∀ e ∈ cont, e ∈ log)
         (fun b a hb ha => minv_applyCombined hO hS hb a ha) _ h2 h1.internal
 
@@ -238,7 +238,14 @@ theorem minv_act {O log keys org start} (hO : GoodOrders O) (hS : Scn log keys o
       split
       · exact minv_getDifference hO hS _ _ (minv_fire hO hS step1 1)
       · exact step1
-    generalize (if m1.qts.armed then (m1.seqOp O 1 .fire).getDifference O fuel0 else m1) = m2 at step2
+    generalize (if m1.qts.armed then (m1.seqOp O 1 .fire).getDifference O fuel0 else m1) = m2' at step2
+    have step3 : MInv O log keys org start
+        (if m2'.seq.armed then (m2'.withSeq { m2'.seq with armed := false }).getDifference O fuel0 else m2') := by
+      split
+      · exact minv_getDifference hO hS _ _ (minv_withSeq step2 _)
+      · exact step2
+    generalize (if m2'.seq.armed then (m2'.withSeq { m2'.seq with armed := false }).getDifference O fuel0 else m2') = m2 at step3
+    have step2 := step3
     apply foldl_inv (MInv O log keys org start) _ _ (fun _ => True) _ m2 step2 (fun _ _ => trivial)
     intro b c hb _
     split
@@ -253,6 +260,20 @@ theorem minv_act {O log keys org start} (hO : GoodOrders O) (hS : Scn log keys o
   | extra k ids => exact minv_world h _ rfl
   | failNext k => exact minv_world h _ rfl
   | known c => exact minv_world h _ rfl
+  | emitSeq n => exact minv_world h _ rfl
+  | pushSeq a b ids =>
+    simp only [Mgr.act]
+    have hes : ∀ e ∈ ids.filterMap (fun i => m.w.log.find? (·.id == i)), e ∈ log := by
+      intro e he
+      obtain ⟨i, _, hi⟩ := List.mem_filterMap.1 he
+      rw [← h.coh.hlog]; exact List.mem_of_find?_eq_some hi
+    have hw : MInv O log keys org start { m with w := { m.w with
+        emitted := ids.foldl (fun acc i => match m.w.log.findIdx? (·.id == i) with
+          | some j => max acc (j + 1) | none => acc) m.w.emitted,
+        seqNow := max m.w.seqNow b } } := minv_world h _ rfl
+    split
+    · exact hw
+    · exact minv_handleSeq hO hS hw _ hes a b
 
 theorem minv_runActions {O log keys org start} (hO : GoodOrders O) (hS : Scn log keys org)
     (acts : List Action) (m : Mgr) (h : MInv O log keys org start m) :
